@@ -631,7 +631,7 @@ func (c *Conn) readRecordOrCCS(expectChangeCipherSpec bool) error {
 			msg := fmt.Sprintf("received record with version %x when expecting version %x", vers, c.vers)
 			return c.in.setErrorLocked(c.newRecordHeaderError(c.remoteAddr, msg))
 		}
-		if !c.haveVers {
+		if !c.haveVers && c.handBuf.Len() == 0 {
 			// 协议识别启发式：首次收到记录时，通过版本号区分 DTLCP/TLCP 与 DTLS。
 			// DTLCP 沿用 TLCP 版本号 0x0101，TLS 为 0x0301~0x0304，均 < 0x1000；
 			// DTLS 1.0(0xFEFF)/1.2(0xFEFD) 均 >= 0x1000。
